@@ -2878,15 +2878,17 @@ class OptTranslator(AppTranslator):
 def main():
     repo, dst = sys.argv[1], sys.argv[2]
     which = sys.argv[3] if len(sys.argv) > 3 else "classification"
-    path = os.path.join(repo, "src", "paulie", {"classification": "classifier/classification.py", "compiler": "application/pauli_compiler.py", "pstring": "common/pauli_string_bitarray.py", "collection": "common/pauli_string_collection.py", "parser": "common/pauli_string_parser.py", "table": "common/two_local_generators.py", "apps": "application/otoc.py", "linear": "common/pauli_string_linear.py", "optimiser": "common/pauli_string_collection.py", "search": "application/pauli_compiler.py", "factory": "common/pauli_string_factory.py", "numpy": "application/matrix_decomposition.py"}[which])
+    path = os.path.join(repo, "src", "paulie", {"classification": "classifier/classification.py", "compiler": "application/pauli_compiler.py", "pstring": "common/pauli_string_bitarray.py", "collection": "common/pauli_string_collection.py", "parser": "common/pauli_string_parser.py", "table": "common/two_local_generators.py", "apps": "application/otoc.py", "linear": "common/pauli_string_linear.py", "optimiser": "common/pauli_string_collection.py", "search": "application/pauli_compiler.py", "factory": "common/pauli_string_factory.py", "numpy": "application/matrix_decomposition.py", "queue": "classifier/morph_factory.py"}[which])
     try:
-        if which in ("search", "factory", "numpy"):
+        if which in ("search", "factory", "numpy", "queue"):
             sys.path.insert(0, os.path.dirname(os.path.abspath(__file__)))
             sys.modules.setdefault("py2coq", sys.modules[__name__])
             from py2coq_search import SearchTranslator, FactoryTranslator
             if which == "numpy":
                 from py2coq_numpy import NumpyTranslator
-        text = NumpyTranslator(repo).run() if which == "numpy" else FactoryTranslator(repo).run() if which == "factory" else SearchTranslator(repo).run() if which == "search" else Translator(path).run() if which == "classification" else (CompTranslator(repo).run() if which == "compiler" else (PSTranslator(repo).run() if which == "pstring" else (CollTranslator(repo).run() if which == "collection" else (ParserTranslator(repo).run() if which == "parser" else (AppTranslator(repo).run() if which == "apps" else (LinTranslator(repo).run() if which == "linear" else (OptTranslator(repo).run() if which == "optimiser" else TableTranslator(repo).run())))))))
+            if which == "queue":
+                from py2coq_queue import QueueTranslator
+        text = QueueTranslator(repo).run() if which == "queue" else NumpyTranslator(repo).run() if which == "numpy" else FactoryTranslator(repo).run() if which == "factory" else SearchTranslator(repo).run() if which == "search" else Translator(path).run() if which == "classification" else (CompTranslator(repo).run() if which == "compiler" else (PSTranslator(repo).run() if which == "pstring" else (CollTranslator(repo).run() if which == "collection" else (ParserTranslator(repo).run() if which == "parser" else (AppTranslator(repo).run() if which == "apps" else (LinTranslator(repo).run() if which == "linear" else (OptTranslator(repo).run() if which == "optimiser" else TableTranslator(repo).run())))))))
     except Unsupported as e:
         print("py2coq: cannot translate %s: %s" % ("common/get_graph.py, application/otoc.py, fourpoint.py, charges.py or the graph methods of the collection" if which == "apps" else path, e)); sys.exit(3)
     with open(dst, "w") as f:
